@@ -7,7 +7,8 @@ ROOT="$(cd "$(dirname "${BASH_SOURCE[0]}")/.." && pwd)"
 PATCH="$(realpath "$1")"; shift
 if ! git -C /repo diff --quiet; then echo "/repo has uncommitted changes; refusing"; exit 2; fi
 if ! git -C /repo apply "$PATCH"; then echo "patch does not apply"; exit 2; fi
-trap 'git -C /repo checkout -- . ; echo "reverted /repo"' EXIT
+# revert and rebuild, so that no later direct use of harness/target/release/check sees the mutated build
+trap 'git -C /repo checkout -- . ; "$ROOT/run" build >/dev/null 2>&1; echo "reverted /repo (harness rebuilt)"' EXIT
 for c in "$@"; do
   out="$("$ROOT/run" "$c" quick 2>/dev/null)"; rc=$?
   case $rc in
